@@ -104,7 +104,8 @@ def neededPos (size : Nat) (unspent : List Nat) : List Nat :=
 
 def handle (st : St) (args : List String) (impl : String) : St × Verdict :=
   let el := varElemLen
-  match args with
+  -- `@n` tokens only number the observation inside the run
+  match args.filter (fun a => !a.startsWith "@") with
   | ["new", kind] =>
     let df : DFile := if kind = "var" then .var {} else .fixed {}
     ({ pm := { b := { dataFile := df }, size := 0 } }, cmpModel "ok" impl)
@@ -164,6 +165,38 @@ def handle (st : St) (args : List String) (impl : String) : St × Verdict :=
       let spec := if st.ref.isUnspent p then Pmmr.merkleProof realHF st.ref.hashes p else none
       (st, cmp2 (showProof spec) (showProof (st.pm.merkleProof realHF p)) impl)
     | none => (st, .unknown)
+  -- out-of-protocol stream: model only, the reference is not consulted
+  | ["xpush", e] => match parseHex e with
+    | none => (st, .unknown)
+    | some e => match st.pm.push realHF e with
+      | some pm => ({ st with pm := pm }, cmpModel (toString pm.size) impl)
+      | none => (st, cmpModel "err" impl)
+  | ["xprune", p] => match nat? p with
+    | none => (st, .unknown)
+    | some p => match st.pm.prune p with
+      | none => (st, cmpModel "err" impl)
+      | some (pm, ok) => ({ st with pm := pm }, cmpModel (showBool ok) impl)
+  | ["xrewind", size, rm] => match nat? size, parseNatList rm with
+    | some size, some rm =>
+      let pm := st.pm.rewind size (Bm.ofList rm)
+      ({ st with pm := pm }, cmpModel (toString pm.size) impl)
+    | _, _ => (st, .unknown)
+  | ["xsetsize", n] => match nat? n with
+    | some n => ({ st with pm := { st.pm with size := n } }, cmpModel "ok" impl)
+    | none => (st, .unknown)
+  | ["xsizes"] => (st, cmpModel s!"{st.pm.b.hashSize} {st.pm.b.dataSize}" impl)
+  | ["xdata", p] => match nat? p with
+    | some p => (st, cmpModel (showOptHex (st.pm.getData el p)) impl)
+    | none => (st, .unknown)
+  | ["xroot"] => (st, cmpModel (showRoot (st.pm.root realHF)) impl)
+  | ["xleaves"] => (st, cmpModel (showNatList st.pm.b.leafPosIter) impl)
+  | ["xleafobs"] =>
+    (st, cmpModel (toHex (h256 (leafObsBytes st.pm.size (st.pm.getData el) st.pm.getHash))) impl)
+  | ["xfile"] =>
+    let vals := (List.range st.pm.size).map fun p => (p, st.pm.b.getFromFile p)
+    let nones := vals.filterMap fun x => if x.2.isNone then some x.1 else none
+    let cat := vals.flatMap fun x => x.2.getD []
+    (st, cmpModel s!"{showNatList nones} {toHex (h256 cat)}" impl)
   -- internal observables (model only)
   | ["usize_mid"] => (st, cmpModel (toString st.pm.b.unprunedSize) impl)
   | ["node", p] => match nat? p with
